@@ -58,24 +58,26 @@ type vpSigned struct {
 
 // vpWorld is everything around the State under test.
 type vpWorld struct {
-	slice     int               // which part of the pre-state / event space this entry covers (vpSlice*)
-	R         int               // rounds 0..R are modelled (R+1 exists as the "next round" consensus tracks)
-	keys      []ed25519.PrivKey // validator keys, index = validator index
-	cs        *State
-	blocks    map[int8]*vpBlockInfo // A, B, C
-	valid     map[int8]bool         // verdict of ValidateBlock per block (fixed per path)
-	maj       [][2]int8             // maj[r][t]: 0 none, 1 nil, 2.. block codes; t: 0 prevote, 1 precommit
-	any       [][2]bool
-	all       [][2]bool
-	handles   [][2]*types.VoteSet
-	pv, pc    []int8 // ghost: what we prevoted / precommitted in round r (cNone = nothing)
-	prop      []int8 // ghost: what we proposed in round r
-	propPOL   []int32
-	signedNow []vpSigned     // signatures released during the step
-	saved     []*types.Block // blocks handed to the block store during the step
-	applied   []*types.Block
-	timeouts  []timeoutInfo
-	ourIdx    int
+	lastVoteRound int32 // the vote event applied in this step
+	lastVoteType  int
+	slice         int               // which part of the pre-state / event space this entry covers (vpSlice*)
+	R             int               // rounds 0..R are modelled (R+1 exists as the "next round" consensus tracks)
+	keys          []ed25519.PrivKey // validator keys, index = validator index
+	cs            *State
+	blocks        map[int8]*vpBlockInfo // A, B, C
+	valid         map[int8]bool         // verdict of ValidateBlock per block (fixed per path)
+	maj           [][2]int8             // maj[r][t]: 0 none, 1 nil, 2.. block codes; t: 0 prevote, 1 precommit
+	any           [][2]bool
+	all           [][2]bool
+	handles       [][2]*types.VoteSet
+	pv, pc        []int8 // ghost: what we prevoted / precommitted in round r (cNone = nothing)
+	prop          []int8 // ghost: what we proposed in round r
+	propPOL       []int32
+	signedNow     []vpSigned     // signatures released during the step
+	saved         []*types.Block // blocks handed to the block store during the step
+	applied       []*types.Block
+	timeouts      []timeoutInfo
+	ourIdx        int
 }
 
 func t01(t tmproto.SignedMsgType) int {
@@ -689,6 +691,7 @@ func (w *vpWorld) applyEvent(kind int) string {
 			v.Type = tmproto.PrevoteType
 		}
 		v.BlockID = w.idOf(w.pickBlock("vote-block", voteBlocks))
+		w.lastVoteRound, w.lastVoteType = v.Round, t01(v.Type)
 		cs.handleMsg(msgInfo{Msg: &VoteMessage{Vote: v}, PeerID: "peer"})
 		return "vote"
 	case 1: // a timeout that was scheduled earlier
@@ -746,6 +749,7 @@ type vpSnapshot struct {
 	step                           cstypes.RoundStepType
 	locked, valid                  int8
 	maj                            [][2]int8
+	any                            [][2]bool
 }
 
 func (w *vpWorld) snapshot() vpSnapshot {
@@ -753,6 +757,7 @@ func (w *vpWorld) snapshot() vpSnapshot {
 	s := vpSnapshot{round: cs.Round, lockedRound: cs.LockedRound, validRound: cs.ValidRound, step: cs.Step,
 		locked: w.codeOfBlock(cs.LockedBlock), valid: w.codeOfBlock(cs.ValidBlock)}
 	s.maj = append([][2]int8{}, w.maj...)
+	s.any = append([][2]bool{}, w.any...)
 	return s
 }
 
@@ -786,9 +791,14 @@ func (w *vpWorld) postChecks(pre vpSnapshot, ev string) {
 			vp.Reach("locked")
 		}
 	}
-	// C03-T3: round skipping
+	// C03-T3: round skipping: +2/3 of anything from a later round moves the node there
 	if ev == "vote" && cs.Round > pre.round {
 		vp.Reach("round-skipped")
+	}
+	if ev == "vote" && w.lastVoteRound > pre.round && int(w.lastVoteRound) < len(w.any) {
+		vr := w.lastVoteRound
+		newAny := vp.And(w.any[vr][w.lastVoteType], !pre.any[vr][w.lastVoteType])
+		vp.Assert(vp.Implies(newAny, cs.Round >= vr), "C03.T3.two-thirds-of-anything-from-a-later-round-moves-the-node-to-that-round")
 	}
 }
 
